@@ -94,7 +94,9 @@ def run(tier: str) -> int:
         oblige('presize#%d: bins is a power of two' % i, pc, is_pow2(n), ('cap', size, n))
         oblige('presize#%d: bins <= 2^30' % i, pc, z3.ULE(n, bv(MAXCAP)), ('cap', size, n))
         oblige('presize#%d: bins >= 1.5*c+1 unless capped at 2^30' % i, pc, z3.Or(n == bv(MAXCAP), z3.And(z3.ULT(size, bv(MAXCAP // 2)), z3.UGE(n, want))), ('cap', size, n))
-        oblige('presize#%d: bins is the least such power of two' % i, pc, z3.Or(z3.UGE(size, bv(MAXCAP // 2)), z3.ULT(z3.LShR(n, 1), want), n == 1), ('cap', size, n))
+        # (not an obligation: the property does not forbid a longer table) is it the least such power of two?
+        least_ok, _ = S.valid(pc, z3.Or(z3.UGE(size, bv(MAXCAP // 2)), z3.ULT(z3.LShR(n, 1), want), n == 1), 'C14 presize#%d least power of two (information)' % i)
+        chk.sample({'function': 'presize', 'information': 'bins is the least power of two >= 1.5c+1', 'holds': bool(least_ok)})
         oblige('presize#%d: c entries stay below the growth threshold (c < 0.75*bins) for c < 0.75*2^30' % i, pc,
                z3.Implies(z3.ULT(size, bv(MAXCAP - MAXCAP // 4)), z3.ULT(size, n - z3.LShR(n, 2))), ('cap', size, n))
     for i, o in enumerate(stores):
@@ -443,8 +445,8 @@ def confirm(chk, findings):
                     chk.inconclusive.append('replay of %s failed: %s' % (name, p.stderr[-500:]))
                     continue
                 c_, bins, sc, after = map(int, m.groups())
-                bad = (bins & (bins - 1)) != 0 or bins > MAXCAP or (c_ <= MAXCAP * 3 // 4 and (sc < c_ or after != bins)) or (c_ == 0 and bins != 0)
-                desc = 'obligation `%s` fails; solver witness capacity=%d; native: with_capacity(%d) -> %d bins, threshold %d, %d bins after inserting %d distinct keys' % (name, c, c_, bins, sc, after, c_)
+                bad = (bins & (bins - 1)) != 0 or bins > MAXCAP or (c_ <= MAXCAP * 3 // 4 and (sc < c_ or after != bins)) or (c_ == 0 and bins != 0) or (bins != 0 and sc != bins - (bins >> 2))
+                desc = 'obligation `%s` fails; solver witness capacity=%d; native: with_capacity(%d) -> %d bins, threshold %d (0.75*bins = %d), %d bins after inserting %d distinct keys' % (name, c, c_, bins, sc, bins - (bins >> 2), after, c_)
                 if bad:
                     chk.violation('capacity:' + name.split('#')[0], desc, REPLAY, 'capacity.rs')
                 else:
